@@ -193,28 +193,38 @@ def grep_forbidden():
 # ---------------------------------------------------------------------------------
 # step 4: model driver
 # ---------------------------------------------------------------------------------
-def build_driver():
-    """(Re)extract and compile bin/lasmodel when the model changed. Returns (ok, log)."""
-    rc, out = make(["Extract.vo"])
+def build_driver(name=None):
+    """(Re)extract and compile a model driver when the model changed. name=None: the main driver
+    (coq/Extract.v -> ocaml/model.ml + ocaml/driver.ml -> bin/lasmodel); name="c12": a property's own driver
+    (coq/ExtractC12.v -> ocaml/c12/model.ml + ocaml/c12/driver.ml -> bin/lasmodel_c12). Returns (ok, log)."""
+    if name is None:
+        target, sub, exe_name = "Extract.vo", "", "lasmodel"
+    else:
+        target, sub, exe_name = f"Extract{name.upper()}.vo", name.lower(), f"lasmodel_{name.lower()}"
+    odir = os.path.join(WORK, "ocaml", sub) if sub else os.path.join(WORK, "ocaml")
+    os.makedirs(odir, exist_ok=True)
+    rc, out = make([target])
     if rc != 0:
         return False, out[-3000:]
-    ml = os.path.join(WORK, "ocaml", "model.ml")
-    exe = os.path.join(WORK, "bin", "lasmodel")
-    drv = os.path.join(WORK, "ocaml", "driver.ml")
+    ml = os.path.join(odir, "model.ml")
+    exe = os.path.join(WORK, "bin", exe_name)
+    drv = os.path.join(odir, "driver.ml")
     if (not os.path.exists(exe) or os.path.getmtime(exe) < os.path.getmtime(ml)
             or os.path.getmtime(exe) < os.path.getmtime(drv)):
         os.makedirs(os.path.join(WORK, "bin"), exist_ok=True)
-        rc, out = sh("ocamlfind ocamlopt -O3 -w -a -o ../bin/lasmodel model.mli model.ml driver.ml 2>&1 || "
-                     "ocamlfind ocamlopt -w -a -o ../bin/lasmodel model.mli model.ml driver.ml",
-                     cwd=os.path.join(WORK, "ocaml"), timeout=600)
+        rc, out = sh(f"ocamlfind ocamlopt -O3 -w -a -o {exe} model.mli model.ml driver.ml 2>&1 || "
+                     f"ocamlfind ocamlopt -w -a -o {exe} model.mli model.ml driver.ml",
+                     cwd=odir, timeout=600)
         if rc != 0:
             return False, out[-3000:]
     return True, ""
 
 
-def run_model(lines, timeout=1200):
-    """Feed command lines to the extracted model; returns list of output lines."""
-    exe = os.path.join(WORK, "bin", "lasmodel")
+def run_model(lines, timeout=1200, name=None):
+    """Feed command lines to an extracted model driver; returns list of output lines."""
+    exe = os.path.join(WORK, "bin", "lasmodel" if name is None else f"lasmodel_{name.lower()}")
+    if not lines:
+        return []
     p = subprocess.run([exe], input="\n".join(lines) + "\n", stdout=subprocess.PIPE, stderr=subprocess.PIPE,
                        text=True, timeout=timeout)
     out = p.stdout.split("\n")
